@@ -81,7 +81,7 @@ def zip_columns(fn: Func, g, n, a: ast.expr, b: ast.expr) -> Optional[Tuple[ast.
 
     ca, cb = col(a), col(b)
     if not ca or not cb:
-        return None
+        return loop_columns(fn, g, n, a, b)
     ka, kb = ca[0][0], cb[0][0]
     if isinstance(ka, str) or isinstance(kb, str):
         if ka != kb:
@@ -89,6 +89,72 @@ def zip_columns(fn: Func, g, n, a: ast.expr, b: ast.expr) -> Optional[Tuple[ast.
     elif ka is not kb:
         return None
     return ca[0][2], ca[0][1], cb[0][1], ca[0][3]
+
+
+def loop_columns(fn: Func, g, n, a: ast.expr, b: ast.expr):
+    """a / b are two lists filled only by `a.append(x); b.append(y)` side by side inside one
+    `for ..x..y.. in rows:` loop: the same columns as `a, b = zip(*rows)`.  -> (rows expr, ix, iy, loop node)"""
+    from ..an import avoiding_path
+
+    def unwrap(e):
+        if isinstance(e, ast.Call) and call_name(e) in ("list", "tuple") and len(e.args) == 1:
+            e = e.args[0]
+        return e if isinstance(e, ast.Name) else None
+
+    na, nb = unwrap(a), unwrap(b)
+    if na is None or nb is None or na.id == nb.id:
+        return None
+    info = {}
+    for nm in (na.id, nb.id):
+        defs = reaching_defs(g, n.id, nm)
+        if not defs or any(not (d.kind == "stmt" and isinstance(d.ast, (ast.Assign, ast.AnnAssign)) and isinstance(getattr(d.ast, "value", None), ast.List) and not d.ast.value.elts) for d in defs):
+            return None
+        apps = [(x, c) for x in g.nodes.values() for c in calls_at(x) if isinstance(c.func, ast.Attribute) and isinstance(c.func.value, ast.Name) and c.func.value.id == nm and c.func.attr in ("append", "extend", "insert", "remove", "pop", "sort", "reverse", "clear")]
+        if not apps or any(c.func.attr != "append" or len(c.args) != 1 for _x, c in apps):
+            return None
+        info[nm] = apps
+    if len(info[na.id]) != len(info[nb.id]):
+        return None
+    found = None
+    used = set()
+    for xa, c_a in info[na.id]:
+        mate = None
+        for j, (xb, c_b) in enumerate(info[nb.id]):
+            if j in used or xa.loops != xb.loops or not xa.loops:
+                continue
+            first, second = (xa, xb) if avoiding_path(g, xb.id, lambda y, q=xa.id: y.id == q) is None else (xb, xa)
+            if avoiding_path(g, second.id, lambda y, q=first.id: y.id == q) is not None:
+                continue
+            nxt = [d for lab, d in first.succ if lab != "exc"]
+            if nxt != [second.id]:
+                r = g.reach(nxt, skip_node=lambda y, q=second.id: y.id == q, skip_edge=lambda p_, lab, d_: lab == "exc", include_start=True)
+                if first.loops[-1] in r or g.exit in r:
+                    continue
+            mate = j
+            break
+        if mate is None:
+            return None
+        used.add(mate)
+        xb, c_b = info[nb.id][mate]
+        va, vb = c_a.args[0], c_b.args[0]
+        if not (isinstance(va, ast.Name) and isinstance(vb, ast.Name)):
+            return None
+        h = g.nodes[xa.loops[-1]]
+        if h.kind != "for":
+            return None
+        pa, pb = _target_path(h.ast.target, va.id), _target_path(h.ast.target, vb.id)
+        if pa is None or pb is None or len(pa) != 1 or len(pb) != 1:
+            return None
+        if reaching_defs(g, xa.id, va.id) != [h] or reaching_defs(g, xb.id, vb.id) != [h]:
+            return None
+        cur = (norm(h.ast.iter), pa[0], pb[0])
+        if found is not None and (found[0], found[1], found[2]) != cur:
+            return None
+        found = (cur[0], cur[1], cur[2], h)
+    if found is None:
+        return None
+    h = found[3]
+    return h.ast.iter, found[1], found[2], h
 
 
 def rows_appended(ck: Checker, fn: Func, g, at, rows_expr: ast.expr) -> List[ast.Tuple]:
